@@ -934,8 +934,8 @@ class Interp:
                 return all(vals) if nm == "all" else any(vals)
             if nm == "len" and len(args) == 1 and isinstance(args[0], (list, set, dict)):
                 return len(args[0])
-            if nm == "defaultdict" and nm not in env and len(args) <= 1 and not kwargs:
-                d_ = DDict()
+            if nm == "defaultdict" and nm not in env and len(args) <= 2 and not kwargs and (len(args) < 2 or isinstance(args[1], dict)):
+                d_ = DDict(args[1]) if len(args) == 2 else DDict()          # defaultdict(factory, initial mapping)
                 f_ = args[0] if args else None
                 if isinstance(f_, LocalFn):
                     d_.factory = (lambda f_=f_, env=env, depth=depth: self.call_local(f_, [], {}, depth, env))
@@ -1190,10 +1190,12 @@ class Interp:
                 if target is not None and isinstance(target.node, (ast.FunctionDef, ast.AsyncFunctionDef)) and target not in self.fn_stack[-3:]:
                     a = target.node.args
                     names = [x.arg for x in a.posonlyargs + a.args]
-                    cenv = {names[0]: recv_v} if names else {}
+                    from .frontend import decorators as _decos2
+                    static_ = any(d.split(".")[-1] == "staticmethod" for d in _decos2(target.node))
+                    cenv = {names[0]: recv_v} if names and not static_ else {}
                     for p_, d in zip(names[len(names) - len(a.defaults):], a.defaults):
                         cenv[p_] = self.ev(d, {}, depth)
-                    for p_, v in zip(names[1:], args):
+                    for p_, v in zip(names if static_ else names[1:], args):
                         cenv[p_] = v
                     for k, v in kwargs.items():
                         cenv[k] = v
@@ -1214,14 +1216,14 @@ class Interp:
                 a = target.node.args
                 names = [x.arg for x in a.posonlyargs + a.args]
                 cenv = {}
-                for p_, d in zip(names[len(names) - len(a.defaults):], a.defaults):
-                    cenv[p_] = self.ev(d, {}, depth)
-                for p_, v in zip(names, args):
-                    cenv[p_] = v
-                for k, v in kwargs.items():
-                    cenv[k] = v
                 self.fn_stack.append(target)
                 try:
+                    for p_, d in zip(names[len(names) - len(a.defaults):], a.defaults):
+                        cenv[p_] = self.ev(d, {}, depth)          # defaults belong to the module the helper is defined in
+                    for p_, v in zip(names, args):
+                        cenv[p_] = v
+                    for k, v in kwargs.items():
+                        cenv[k] = v
                     return self.call_body(target, cenv, depth + 1)
                 finally:
                     self.fn_stack.pop()
@@ -1515,12 +1517,19 @@ def _install():
         gen = _is_generator(node)
         start = len(self.trace)
         rv = None
+        # a module-level function of another module: names in its body (constants, helpers) resolve in *its* module
+        pushed = isinstance(f.owner, FunctionInfo) and f.owner.node is node and self.fn_stack and f.owner.module is not self.fn_stack[-1].module
+        if pushed:
+            self.fn_stack.append(f.owner)
         try:
             self.block(node.body, cenv, depth + 1)
         except _Raise:
             raise
         except _Return as r:
             rv = r.value
+        finally:
+            if pushed:
+                self.fn_stack.pop()
         if gen:
             return self._collect_yields(start)
         return rv
@@ -1587,7 +1596,12 @@ def _install():
             full = self.prog.resolve_name(mod, name)
             fi = self.prog.functions.get(full) if full else None
             if fi is not None and fi.cls is None and fi.parent is None and isinstance(fi.node, (ast.FunctionDef, ast.AsyncFunctionDef)):
-                val = LocalFn(fi.node, {}, fi, self._defaults(fi.node, {}, depth))
+                self.fn_stack.append(fi)          # parameter defaults are evaluated where the function is defined
+                try:
+                    dflt_ = self._defaults(fi.node, {}, depth)
+                finally:
+                    self.fn_stack.pop()
+                val = LocalFn(fi.node, {}, fi, dflt_)
         if val is None:
             # a function of the operator module imported by name (from operator import mul)
             full = self.prog.resolve_name(mod, name)
